@@ -3,7 +3,8 @@
    byte-identical log entries.  Replica "A" applies every entry; a "branch"
    event starts another replica from a snapshot that A took after entry `cut`
    (restored into a fresh index, or into one that had applied `from` entries),
-   which then applies the rest.  Checked: every replica's outcome for entry i
+   which then applies the rest; replica "C" applies every entry the way a follower does, with nobody
+   waiting for the outcome.  Checked: every replica's outcome for entry i
    and its contents after entry i equal A's and equal the sequential map's. *)
 EXTENDS Integers, Sequences, FiniteSets, TLC, Json
 CONSTANT TraceFile
@@ -63,6 +64,11 @@ Step ==
             /\ viol' = viol \cup (IF t.rerr = "" THEN {} ELSE {<<l, "RestoreErr">>})
                             \cup (IF t.cut + 1 > Len(ref) THEN {<<l, "Order">>}
                                   ELSE IF t.rerr # "" \/ Same(t.st, ref[t.cut + 1]) THEN {} ELSE {<<l, "SnapshotVsReplay">>})
+       [] t.ev = "apply" /\ t.r = "C" ->       \* a follower nobody waits on: the entry must still apply, with the same effect
+            /\ ref' = ref /\ refout' = refout
+            /\ viol' = viol \cup (IF t.res = "unobserved" THEN {} ELSE {<<l, "ApplyFailedUnobserved">>})
+                            \cup (IF t.idx + 1 > Len(ref) THEN {<<l, "Order">>}
+                                  ELSE IF t.res # "unobserved" \/ Same(t.st, ref[t.idx + 1]) THEN {} ELSE {<<l, "ReplicaDiverged">>})
        [] t.ev = "apply" /\ t.r # "A" ->
             /\ ref' = ref /\ refout' = refout
             /\ viol' = viol \cup (IF t.idx > Len(refout) THEN {<<l, "Order">>}
